@@ -561,6 +561,7 @@ func checkC16(c *Ctx, r *Report) {
 	c16ExtPure(c, r)
 	c16RefPure(c, r)
 	c16ScanPure(c, r)
+	importRulesFrom(c, r, "C17", func(c *Ctx, sub *Report) { c17Roots(c, sub) }, "C16.ROOTS", "root operation fields are added to the schema object only while an undeclared schema is being built (C17.ROOTS): a derived schema that keeps picking up Query / Mutation / Subscription types from later loads, with a flag that survives an explicit declaration, makes the operation types depend on how the definitions were split over loads", "C17.ROOTS")
 	importRules(c, r, "C13", "C16.VALALL", "after every load the whole type table and the whole directive table are validated, unfiltered (C13.WALK): validating only what a load defines or extends accepts a split arrangement (`extend interface` arriving after its implementers) that the single document refuses", "C13.WALK")
 }
 
